@@ -69,6 +69,7 @@ type Obs struct {
 	Pool    [][2]int `json:"pool,omitempty"`
 	Manif   []int    `json:"manif,omitempty"`
 	Empties int      `json:"empties,omitempty"`
+	Closed  [][2]int `json:"closed,omitempty"` // layers the manager holds whose object has been closed
 }
 
 // ---------------------------------------------------------------------------------------------
@@ -330,6 +331,7 @@ type machine struct {
 	faulted  map[[2]int]bool // (ref, ld): a registry error was delivered while resolving ld for ref since the ref's uses last dropped to zero
 	problems []problem
 	relZero  map[int]bool // ref had a release-to-zero of its last use
+	raceLR   map[int]bool // op index of a racerel whose resolution failed: its error is recorded after the release
 	stats    map[string]int
 }
 
@@ -349,7 +351,7 @@ func newMachine(w World) *machine {
 	if err != nil {
 		panic(err)
 	}
-	m := &machine{w: w, g: g, lm: lm, root: root, own: map[[2]int]int{}, faulted: map[[2]int]bool{}, relZero: map[int]bool{}, stats: map[string]int{}}
+	m := &machine{w: w, g: g, lm: lm, root: root, own: map[[2]int]int{}, faulted: map[[2]int]bool{}, relZero: map[int]bool{}, stats: map[string]int{}, raceLR: map[int]bool{}}
 	for r := 0; r <= len(w.Images); r++ {
 		s, err := reference.Parse(refName(r))
 		if err != nil {
@@ -399,6 +401,7 @@ func (m *machine) fail(sig, f string, a ...any) {
 // ---- state dump, mapped back to ids ----
 type dump struct {
 	layers  [][3]int
+	closed  [][2]int // cached layers whose object is closed
 	counts  [][3]int
 	memo    [][3]int
 	pool    [][2]int
@@ -446,6 +449,9 @@ func (m *machine) dump() dump {
 	var d dump
 	for _, e := range st.Layers {
 		d.layers = append(d.layers, [3]int{m.refID(e.Ref), tocID(e.Key), ldID(e.LayerDigest)})
+		if e.Closed {
+			d.closed = append(d.closed, [2]int{m.refID(e.Ref), tocID(e.Key)})
+		}
 		if e.Key != e.TOCDigest {
 			m.fail("", "layer cached under key %s has TOC digest %s", e.Key, e.TOCDigest)
 		}
@@ -642,10 +648,13 @@ func (m *machine) judgeState(d dump, pre dump) {
 	if d.empties != 0 {
 		m.fail("", "%d empty inner maps left behind", d.empties)
 	}
+	for _, e := range d.closed {
+		m.fail("", "layer (ref %d, toc %d) is held by the manager (%d outstanding uses) but its object has been closed", e[0], e[1], m.own[[2]int{e[0], e[1]}])
+	}
 }
 
 func (m *machine) obs(res string, n int, d dump) Obs {
-	return Obs{Res: res, N: n, Chk: true, Layers: d.layers, Counts: d.counts, Memo: d.memo, Pool: d.pool, Manif: d.manif, Empties: d.empties}
+	return Obs{Res: res, N: n, Chk: true, Layers: d.layers, Counts: d.counts, Memo: d.memo, Pool: d.pool, Manif: d.manif, Empties: d.empties, Closed: d.closed}
 }
 
 func (m *machine) run(ops []Op) []Obs {
@@ -846,8 +855,9 @@ func (m *machine) run(ops []Op) []Obs {
 			m.g.setFaults(false, o.Fl)
 			reached, open := store.VerifArmGate(m.spec(o.R).String() + "/" + blobs[o.L].dgst.String())
 			done := make(chan struct{})
+			var rerr error
 			go func() {
-				m.lm.VerifResolveLayer(context.Background(), m.spec(o.R), layerDesc(o.L))
+				rerr = m.lm.VerifResolveLayer(context.Background(), m.spec(o.R), layerDesc(o.L))
 				close(done)
 			}()
 			atGate := false
@@ -855,31 +865,63 @@ func (m *machine) run(ops []Op) []Obs {
 			case <-reached:
 				atGate = true
 				m.stats["result.racerel.gate"]++
-			case <-done: // memo hit or resolution error: the call never caches
+			case <-done: // memo hit: the call neither caches nor records anything
 			}
-			d1 := m.dump()
-			out = append(out, m.obs("ok", 0, d1))
+			// at the gate the call has either cached the layer (success: its effects are complete) or failed and not yet
+			// recorded the error; the registry's injection log tells which
+			failedAtGate := atGate && len(m.g.injectedLayers()) > 0
+			if atGate && !failedAtGate && m.tocOf(o.L) < 0 {
+				failedAtGate = true // not an eStargz blob: resolution failed without a registry fault
+			}
 			k := [2]int{o.R, o.T}
 			before := m.ownTotal(o.R)
-			n, err := m.lm.VerifRelease(context.Background(), m.spec(o.R), tocDigest(o.T))
+			var d1, d dump
+			var n int
+			var err error
+			if failedAtGate {
+				// effects in the order release; record error
+				m.raceLR[i] = true
+				m.stats["result.racerel.errgate"]++
+				n, err = m.lm.VerifRelease(context.Background(), m.spec(o.R), tocDigest(o.T))
+				d1 = m.dump()
+				open()
+				<-done
+				m.quiesce()
+				d = m.dump()
+			} else {
+				d1 = m.dump()
+				n, err = m.lm.VerifRelease(context.Background(), m.spec(o.R), tocDigest(o.T))
+				open()
+				<-done
+				m.quiesce()
+				d = m.dump()
+			}
+			_ = rerr
 			hadUse := m.own[k] > 0
 			if hadUse {
 				m.own[k]--
 			}
-			open()
-			<-done
-			m.quiesce()
 			m.noteInjected(o.R)
-			m.g.setFaults(false, nil)
-			d := m.dump()
-			if err != nil {
-				out = append(out, m.obs("err", 0, d))
-			} else {
-				out = append(out, m.obs("count", n, d))
+			relObs := m.obs("err", 0, d)
+			if failedAtGate {
+				relObs = m.obs("err", 0, d1)
+			}
+			if err == nil {
+				relObs.Res, relObs.N = "count", n
 				if atGate && n == 0 {
 					m.stats["result.racerel.dropped"]++
 				}
 			}
+			if failedAtGate {
+				out = append(out, relObs, m.obs("ok", 0, d))
+			} else {
+				out = append(out, m.obs("ok", 0, d1), relObs)
+			}
+			injectedNow := map[int]bool{}
+			for _, l := range m.g.injectedLayers() {
+				injectedNow[l] = true
+			}
+			m.g.setFaults(false, nil)
 			if hadUse && before > 0 && m.ownTotal(o.R) == 0 {
 				m.relZero[o.R] = true
 				for _, e := range d.memo {
@@ -888,12 +930,12 @@ func (m *machine) run(ops []Op) []Obs {
 					}
 				}
 				for l := range blobs {
-					if !m.g.injected[blobs[l].dgst] {
+					if !injectedNow[l] {
 						delete(m.faulted, [2]int{o.R, l})
 					}
 				}
 			}
-			m.judgeState(d, d1)
+			m.judgeState(d, pre)
 		case "expire":
 			// TTL timers of the resolver's layer and blob cache fire for (ref, layer digest)
 			if o.L >= 0 && o.L < nBlobs {
@@ -977,11 +1019,15 @@ func coqObs(o Obs) string {
 	for i, x := range o.Pool {
 		ps[i] = fmt.Sprintf("tp %d %s", x[0], hx.CoqZ(int64(x[1])))
 	}
-	return fmt.Sprintf("mkObs %s %s %s %s %s %s %s %d", res, hx.CoqBool(o.Chk), t3("tl", o.Layers, nat), t3("tc", o.Counts, z), t3("tm", o.Memo, b),
-		hx.CoqList(ps), hx.CoqNatList(o.Manif), o.Empties)
+	cl := make([]string, len(o.Closed))
+	for i, x := range o.Closed {
+		cl[i] = fmt.Sprintf("tk %d %d", x[0], x[1])
+	}
+	return fmt.Sprintf("mkRObs (mkObs %s %s %s %s %s %s %s %d) %s", res, hx.CoqBool(o.Chk), t3("tl", o.Layers, nat), t3("tc", o.Counts, z), t3("tm", o.Memo, b),
+		hx.CoqList(ps), hx.CoqNatList(o.Manif), o.Empties, hx.CoqList(cl))
 }
 
-func coqCase(c Case, obs []Obs) string {
+func coqCase(c Case, obs []Obs, raceLR map[int]bool) string {
 	// a concurrent group is printed as consecutive Lookups carrying the group's fault script
 	ops := make([]string, 0, len(c.Ops))
 	for i := 0; i < len(c.Ops); i++ {
@@ -995,6 +1041,10 @@ func coqCase(c Case, obs []Obs) string {
 				j++
 			}
 			i = j - 1
+			continue
+		}
+		if o.Op == "racerel" && raceLR[i] {
+			ops = append(ops, fmt.Sprintf("Release %d %d; Resolve %d %d true", o.R, o.T, o.R, o.L))
 			continue
 		}
 		ops = append(ops, coqOp(o))
@@ -1097,7 +1147,7 @@ func genCase(r *hx.Rng, tier string) Case {
 	grp := 0
 	for len(c.Ops) < nops {
 		ref := pickRef()
-		switch r.Pick(30, 6, 22, 24, 5, 4, 5, 4, 5, 6) {
+		switch r.Pick(30, 6, 22, 24, 5, 4, 5, 4, 5, 6, 5) {
 		case 0:
 			k := "diff"
 			if r.Bool() {
@@ -1153,6 +1203,31 @@ func genCase(r *hx.Rng, tier string) Case {
 			}
 		case 7:
 			c.Ops = append(c.Ops, Op{Op: "probe", R: ref, T: pickToc(ref)})
+		case 10:
+			// resolver TTL expiry, then a sibling released to zero and looked up again: every layer of the image is resolved
+			// again while some of them are still cached and in use (duplicate path of resolveLayer)
+			if ref < len(w.Images) {
+				var ts []int
+				for _, l := range w.Images[ref] {
+					if w.Ltoc[l] >= 0 {
+						ts = append(ts, w.Ltoc[l])
+					}
+				}
+				if len(ts) >= 2 {
+					a, b := ts[0], ts[1]
+					if r.Bool() {
+						a, b = b, a
+					}
+					c.Ops = append(c.Ops, Op{Op: "lookup", K: "diff", R: ref, T: a}, Op{Op: "use", R: ref, T: a}, Op{Op: "use", R: ref, T: b})
+					for _, l := range w.Images[ref] {
+						if r.Chance(3, 4) {
+							c.Ops = append(c.Ops, Op{Op: "expire", R: ref, L: l})
+						}
+					}
+					c.Ops = append(c.Ops, Op{Op: "release", R: ref, T: a}, Op{Op: "lookup", K: "diff", R: ref, T: a}, Op{Op: "lookup", K: "blob", R: ref, T: b})
+					used = append(used, [2]int{ref, b})
+				}
+			}
 		case 9:
 			// a release racing with the resolution of the layer it releases (or of a sibling)
 			if ref < len(w.Images) {
@@ -1201,6 +1276,10 @@ func corpus() []Case {
 		{World: std, Ops: []Op{{Op: "lookup", K: "diff", R: 0, T: 0, Grp: 1}, {Op: "lookup", K: "diff", R: 0, T: 1, Grp: 1}, {Op: "lookup", K: "diff", R: 0, T: 51, Grp: 1}, {Op: "use", R: 0, T: 1}, {Op: "lookup", K: "blob", R: 1, T: 1}, {Op: "release", R: 0, T: 1}, {Op: "probe", R: 1, T: 1}}},
 		// resolver-cache expiry: after the release the layer is only in the resolver's TTL cache (fault ignored); after expiry the fault bites
 		{World: std, Ops: []Op{{Op: "lookup", K: "diff", R: 1, T: 1}, {Op: "use", R: 1, T: 1}, {Op: "release", R: 1, T: 1}, {Op: "lookup", K: "diff", R: 1, T: 1, Fl: []int{1}}, {Op: "use", R: 1, T: 1}, {Op: "release", R: 1, T: 1}, {Op: "expire", R: 1, L: 1}, {Op: "lookup", K: "diff", R: 1, T: 1, Fl: []int{1}}, {Op: "expire", R: 1, L: 2}, {Op: "lookup", K: "diff", R: 1, T: 2}}},
+		// in-use layer B must survive: TTL expiry, sibling A released to zero and looked up again (B is resolved again: duplicate path)
+		{World: std, Ops: []Op{{Op: "lookup", K: "diff", R: 0, T: 0}, {Op: "use", R: 0, T: 0}, {Op: "use", R: 0, T: 1}, {Op: "expire", R: 0, L: 0}, {Op: "expire", R: 0, L: 1}, {Op: "release", R: 0, T: 0}, {Op: "lookup", K: "diff", R: 0, T: 0}, {Op: "lookup", K: "diff", R: 0, T: 1}, {Op: "release", R: 0, T: 1}}},
+		// a failing resolution whose error is recorded after the last release of the image (in flight during the release)
+		{World: std, Ops: []Op{{Op: "lookup", K: "diff", R: 1, T: 2, Fl: []int{1}}, {Op: "use", R: 1, T: 2}, {Op: "expire", R: 1, L: 1}, {Op: "release", R: 1, T: 2}, {Op: "use", R: 1, T: 2}, {Op: "racerel", R: 1, L: 1, T: 2, Fl: []int{1}}, {Op: "lookup", K: "diff", R: 1, T: 1}}},
 		// F28: the last use of a layer is released while a resolveLayer of that layer is between cacheLayer and its bookkeeping
 		{World: std, Ops: []Op{{Op: "use", R: 1, T: 1}, {Op: "racerel", R: 1, L: 1, T: 1}, {Op: "lookup", K: "diff", R: 1, T: 1}, {Op: "lookup", K: "diff", R: 1, T: 1}, {Op: "use", R: 1, T: 2}, {Op: "racerel", R: 1, L: 1, T: 2}, {Op: "lookup", K: "blob", R: 1, T: 1}}},
 		// sub-steps interleaved with a release
@@ -1240,7 +1319,7 @@ func main() {
 			ctx.CountN(k, v)
 		}
 		ctx.CountN("ops", len(c.Ops))
-		term := coqCase(c, obs)
+		term := coqCase(c, obs, m.raceLR)
 		nontrivial := len(kinds) >= 3 && m.stats["result.lookup.ok"] > 0
 		id := ctx.Case(term, c, term, nontrivial)
 		for _, p := range m.problems {
